@@ -18,6 +18,11 @@ import (
 
 func pick64(rng *rand.Rand, xs ...int64) int64 { return xs[rng.Intn(len(xs))] }
 
+// epoch durations from one election-tick multiple up to the default 24 h epoch
+func genDur(rng *rand.Rand) int64 {
+	return pick64(rng, 600, 900, 1200, 1800, 3600, 7200, 21600, 43200, 86400, 86400)
+}
+
 func genEpoch(rng *rand.Rand) uint64 {
 	switch rng.Intn(6) {
 	case 0:
@@ -59,6 +64,7 @@ func runFormulas(rng *rand.Rand, n int, out *Out, _ []string) {
 		formulaSentinelEpoch(rng, out)
 		formulaCursor(rng, out)
 		formulaCollect(rng, out)
+		formulaLiqStake(rng, out)
 		if i%4 == 0 {
 			formulaRops(rng, out)
 		}
@@ -104,7 +110,7 @@ func formulaShares(rng *rand.Rand, out *Out) {
 
 func formulaWeights(rng *rand.Rand, out *Out) {
 	s := int64(1000000000) + int64(rng.Intn(1000))*3600
-	e := s + pick64(rng, 3600, 600, 86400, 1)
+	e := s + pick64(rng, genDur(rng), genDur(rng), 1)
 	st, rv := genTime(rng, s), genTime(rng, s)
 	wa := genAmount(rng)
 	w := implementation.VerifGetWeightedStake(&definition.StakeInfo{StartTime: st, RevokeTime: rv, WeightedAmount: wa}, s, e)
@@ -383,7 +389,7 @@ func formulaPillarEpoch(rng *rand.Rand, out *Out) {
 func formulaStakeEpoch(rng *rand.Rand, out *Out) {
 	epoch := genEpoch(rng) % 100000
 	g := int64(1000000000)
-	dur := pick64(rng, 3600, 600, 86400, 300)
+	dur := genDur(rng)
 	rd := &fakeReader{ticker: common.NewTicker(time.Unix(g, 0), time.Duration(dur)*time.Second)}
 	ctx := synthContext(types.StakeContract, 2000000000, 1000, rd)
 	s0, e0 := g+dur*int64(epoch), g+dur*int64(epoch+1)
@@ -430,7 +436,7 @@ func formulaStakeEpoch(rng *rand.Rand, out *Out) {
 func formulaSentinelEpoch(rng *rand.Rand, out *Out) {
 	epoch := genEpoch(rng) % 100000
 	g := int64(1000000000)
-	dur := pick64(rng, 3600, 600, 86400, 300)
+	dur := genDur(rng)
 	rd := &fakeReader{ticker: common.NewTicker(time.Unix(g, 0), time.Duration(dur)*time.Second)}
 	ctx := synthContext(types.SentinelContract, 2000000000, 1000, rd)
 	s0, e0 := g+dur*int64(epoch), g+dur*int64(epoch+1)
@@ -475,7 +481,7 @@ func formulaSentinelEpoch(rng *rand.Rand, out *Out) {
 // ---- epoch cursor through the real update loops
 func formulaCursor(rng *rand.Rand, out *Out) {
 	g := int64(1000000000)
-	dur := pick64(rng, 3600, 600, 86400, 300, 1800)
+	dur := genDur(rng)
 	last := int64(-1)
 	if rng.Intn(3) != 0 {
 		last = int64(rng.Intn(50))
@@ -705,4 +711,183 @@ func formulaRops(rng *rand.Rand, out *Out) {
 		mints = append(mints, Tup(Big(mintedZ[a]), Big(mintedQ[a])))
 	}
 	out.Case("rops", Tup(I64(int64(na)), ops), Tup(deps, mints), "history")
+}
+
+// ---- computeLiquidityStakeRewardsForEpoch (method table after the bridge-and-liquidity spork)
+func synthZts(i int) types.ZenonTokenStandard {
+	var z types.ZenonTokenStandard
+	z[0], z[9] = 0x7c, byte(i)
+	return z
+}
+
+func formulaLiqStake(rng *rand.Rand, out *Out) {
+	epoch := genEpoch(rng) % 100000
+	g := int64(1000000000)
+	dur := genDur(rng)
+	rd := &fakeReader{ticker: common.NewTicker(time.Unix(g, 0), time.Duration(dur)*time.Second)}
+	ctx := synthContext(types.LiquidityContract, 2000000000, 1000, rd)
+	s0, e0 := g+dur*int64(epoch), g+dur*int64(epoch+1)
+	halted := rng.Intn(8) == 0
+	extraZ, extraQ := big.NewInt(0), big.NewInt(0)
+	if rng.Intn(2) == 0 {
+		extraZ = genAmount(rng)
+	}
+	if rng.Intn(2) == 0 {
+		extraQ = genAmount(rng)
+	}
+	balZ, balQ := genAmount(rng), genAmount(rng)
+	switch rng.Intn(4) {
+	case 0:
+		balZ, balQ = new(big.Int).Set(extraZ), new(big.Int).Set(extraQ)
+	case 1:
+		balZ = new(big.Int).Add(extraZ, big.NewInt(int64(rng.Intn(3))-1))
+		balQ = new(big.Int).Add(extraQ, genAmount(rng))
+		if balZ.Sign() < 0 {
+			balZ = big.NewInt(0)
+		}
+	case 2:
+		balZ, balQ = new(big.Int).Lsh(big.NewInt(1), 100), new(big.Int).Lsh(big.NewInt(1), 100)
+	}
+	if err := ctx.SetBalance(types.ZnnTokenStandard, balZ); err != nil {
+		panic(err)
+	}
+	if err := ctx.SetBalance(types.QsrTokenStandard, balQ); err != nil {
+		panic(err)
+	}
+	info := &definition.LiquidityInfo{Administrator: synthAddr(1), IsHalted: halted, ZnnReward: extraZ, QsrReward: extraQ}
+	tt := Lst()
+	nt := rng.Intn(4)
+	sumZ, sumQ := uint32(0), uint32(0)
+	for i := 0; i < nt; i++ {
+		tok := rng.Intn(4)
+		zp, qp := uint32(rng.Intn(6000)), uint32(rng.Intn(6000))
+		switch rng.Intn(5) {
+		case 0:
+			zp, qp = 10000-sumZ, 10000-sumQ
+		case 1:
+			zp, qp = 0, 10000
+		case 2: // percentages that add up to more than the whole (SetTokenTuple rejects that; the routine must then refuse)
+			zp, qp = 9000, 9000
+		}
+		if zp > 10000 {
+			zp = 10000
+		}
+		if qp > 10000 {
+			qp = 10000
+		}
+		sumZ, sumQ = sumZ+zp, sumQ+qp
+		info.TokenTuples = append(info.TokenTuples, definition.TokenTuple{TokenStandard: synthZts(tok).String(), ZnnPercentage: zp, QsrPercentage: qp, MinAmount: big.NewInt(1)})
+		tt = append(tt, Tup(I64(int64(tok)), I64(int64(zp)), I64(int64(qp))))
+	}
+	v, err := definition.EncodeLiquidityInfo(info)
+	if err != nil {
+		panic(err)
+	}
+	if err := v.Save(ctx.Storage()); err != nil {
+		panic(err)
+	}
+	n := rng.Intn(8)
+	lt := Lst()
+	for i := 0; i < n; i++ {
+		st, rv := genTime(rng, s0), int64(0)
+		if rng.Intn(2) == 0 {
+			rv = genTime(rng, s0+dur/2)
+		}
+		if rng.Intn(2) == 0 {
+			st = s0 - int64(rng.Intn(5000))
+		}
+		wa := genAmount(rng)
+		if wa.Sign() == 0 && rng.Intn(3) != 0 {
+			wa = big.NewInt(int64(1 + rng.Intn(1000)))
+		}
+		tok := rng.Intn(5)
+		if len(info.TokenTuples) > 0 && rng.Intn(5) != 0 {
+			for k, z := 0, info.TokenTuples[rng.Intn(len(info.TokenTuples))].TokenStandard; k < 5; k++ {
+				if synthZts(k).String() == z {
+					tok = k
+				}
+			}
+		}
+		addr := 300 + rng.Intn(5)
+		var id types.Hash
+		id[0], id[1] = byte(i), 0x22
+		en := &definition.LiquidityStakeEntry{Amount: wa, TokenStandard: synthZts(tok), WeightedAmount: wa, StartTime: st, RevokeTime: rv, ExpirationTime: st + 1000,
+			StakeAddress: synthAddr(addr), Id: id}
+		if err := en.Save(ctx.Storage()); err != nil {
+			panic(err)
+		}
+		lt = append(lt, Tup(I64(int64(tok)), I64(st), I64(rv), Big(wa), I64(int64(addr))))
+	}
+	var blocks []*nom.AccountBlock
+	var rerr error
+	s := status(func() error { blocks, rerr = implementation.VerifComputeLiquidityStakeRewardsForEpoch(ctx, epoch); return rerr })
+	if s == 1 && rerr != constants.ErrInvalidRewards {
+		out.Oracle(false, "liquidity-stake-unexpected-error", M{"err": rerr.Error()})
+		return
+	}
+	var cs []credit
+	left := 0
+	burn := [2]*big.Int{big.NewInt(0), big.NewInt(0)}
+	mint := [2]*big.Int{big.NewInt(0), big.NewInt(0)}
+	okShape := true
+	if s == 0 {
+		cs = readHistory(ctx.Storage(), synthIdx)[epoch]
+		left = len(definition.GetAllLiquidityStakeEntries(ctx.Storage()))
+		for _, b := range blocks {
+			k := 0
+			if b.ToAddress != types.TokenContract {
+				okShape = false
+			}
+			if b.Amount.Sign() > 0 { // burn of the additional reward
+				if b.TokenStandard == types.QsrTokenStandard {
+					k = 1
+				} else if b.TokenStandard != types.ZnnTokenStandard {
+					okShape = false
+				}
+				if string(b.Data) != string(definition.ABIToken.PackMethodPanic(definition.BurnMethodName)) {
+					okShape = false
+				}
+				burn[k].Add(burn[k], b.Amount)
+				continue
+			}
+			p := new(definition.MintParam)
+			if err := definition.ABIToken.UnpackMethod(p, definition.MintMethodName, b.Data); err != nil || p.ReceiveAddress != types.LiquidityContract {
+				okShape = false
+				continue
+			}
+			if p.TokenStandard == types.QsrTokenStandard {
+				k = 1
+			}
+			mint[k].Add(mint[k], p.Amount)
+		}
+	}
+	tag := "done"
+	switch {
+	case s == 1:
+		tag = "invalid-rewards"
+	case s == 2:
+		tag = "panic"
+	case halted:
+		tag = "halted"
+	case len(cs) == 0:
+		tag = "done-no-credits"
+	case burn[0].Sign() > 0 || burn[1].Sign() > 0:
+		tag = "done-additional-reward"
+	case left < n:
+		tag = "done-entries-deleted"
+	}
+	out.Case("liq_stake_epoch", Tup(U64(epoch), I64(s0), I64(e0), halted, Tup(Big(balZ), Big(balQ), Big(extraZ), Big(extraQ)), tt, lt),
+		Tup(I64(s), credTerm(cs, true), credTerm(cs, false), Tup(Big(burn[0]), Big(burn[1])), Tup(Big(mint[0]), Big(mint[1])), I64(int64(left))), tag)
+	if s == 0 {
+		// own statement: credited + minted to the contract - burned from the contract = the epoch's liquidity share, and
+		// credits stay within share + burned additional reward
+		z, q := sumCredits(cs)
+		lz, lq := constants.LiquidityRewardForEpoch(epoch)
+		netZ := new(big.Int).Sub(new(big.Int).Add(z, mint[0]), burn[0])
+		netQ := new(big.Int).Sub(new(big.Int).Add(q, mint[1]), burn[1])
+		okB := z.Cmp(new(big.Int).Add(lz, burn[0])) <= 0 && q.Cmp(new(big.Int).Add(lq, burn[1])) <= 0 && burn[0].Cmp(balZ) <= 0 && burn[1].Cmp(balQ) <= 0
+		out.Oracle(okShape && okB && netZ.Cmp(lz) == 0 && netQ.Cmp(lq) == 0, "liquidity-stake-epoch-issues-exactly-the-share",
+			M{"epoch": U64(epoch), "credited_znn": Big(z), "credited_qsr": Big(q), "minted_znn": Big(mint[0]), "minted_qsr": Big(mint[1]),
+				"burned_znn": Big(burn[0]), "burned_qsr": Big(burn[1]), "share_znn": Big(lz), "share_qsr": Big(lq)})
+	}
 }
